@@ -55,7 +55,7 @@ def int_literal(val: str) -> int:
     if MAX_STR_INT != 0 and len(mantissa) + exp > MAX_STR_INT:
         raise LiquidValueError(
             f"integer string conversion limit ({MAX_STR_INT}) reached: "
-            f"value has {len(mantissa) + exp} digits",
+            f"value has more than {MAX_STR_INT} digits",
             token=None,
         )
     return to_int(mantissa) * 10**exp
